@@ -149,4 +149,60 @@ def reviewed : List (String × List (String × List String)) := [
 def targets : List (String × String) :=
   reviewed.flatMap fun (n, ws) => ws.map fun (p, _) => (n, p)
 
+/-- unyt/array.py (module-level functions, methods of unyt_array / unyt_quantity as `Class.method` with `self` first).
+    Reviewed: `self` is written ONLY by the documented in-place routines (convert_to_units / _base / _cgs / _mks /
+    _equivalent, __setstate__, __array_finalize__ (attribute initialisation of the object being created), __new__ (the
+    object under construction, which may view `input_array` — documented: "input_array ... is viewed, not copied")),
+    `out` by dot / take / _float_out_view, `kwargs` where a routine hands its `**kwargs` on (equivalence keywords,
+    ufunc keywords: an `out=` inside is the declared target), `inputs` / `args` of the two NumPy protocol hooks (they
+    carry `out` too), `header` of savetxt (a str, rebound by `+=`), `v` of _validate_numpy_wrapper_units (a list it
+    builds).  NO documented-copying method has `self` here (`copying_methods_never_target_self`). -/
+def reviewedArray : List (String × List (String × List String)) := [
+  ("_validate_numpy_wrapper_units", [("v", ["v"])]),
+  ("_float_out_view", [("out", ["out", "out"])]),
+  ("savetxt", [("header", ["header", "header"])]),
+  ("allclose_units", [("kwargs", ["kwargs"])]),
+  ("unyt_array.__new__", [("cls", ["obj", "obj", "ret", "ret", "ret", "ret", "ret", "obj", "obj"]),
+ ("input_array", ["obj", "obj", "ret", "ret", "ret", "ret", "ret", "obj", "obj"]),
+ ("dtype", ["obj", "obj", "obj", "obj"])]),
+  ("unyt_array.convert_to_units", [("self", ["values", "self", "values", "values", "values", "self", "unyt_array.convert_to_equivalent@2/self"]),
+ ("kwargs", ["unyt_array.convert_to_equivalent@2/kwargs"])]),
+  ("unyt_array.convert_to_base", [("self",
+  ["unyt_array.convert_to_units@1/values", "unyt_array.convert_to_units@1/self", "unyt_array.convert_to_units@1/values",
+   "unyt_array.convert_to_units@1/values", "unyt_array.convert_to_units@1/values", "unyt_array.convert_to_units@1/self",
+   "unyt_array.convert_to_units@1/unyt_array.convert_to_equivalent@2/self"]),
+ ("kwargs", ["unyt_array.convert_to_units@1/unyt_array.convert_to_equivalent@2/kwargs"])]),
+  ("unyt_array.convert_to_cgs", [("self",
+  ["unyt_array.convert_to_units@1/values", "unyt_array.convert_to_units@1/self", "unyt_array.convert_to_units@1/values",
+   "unyt_array.convert_to_units@1/values", "unyt_array.convert_to_units@1/values", "unyt_array.convert_to_units@1/self",
+   "unyt_array.convert_to_units@1/unyt_array.convert_to_equivalent@2/self"]),
+ ("kwargs", ["unyt_array.convert_to_units@1/unyt_array.convert_to_equivalent@2/kwargs"])]),
+  ("unyt_array.convert_to_mks", [("self",
+  ["unyt_array.convert_to_units@1/values", "unyt_array.convert_to_units@1/self", "unyt_array.convert_to_units@1/values",
+   "unyt_array.convert_to_units@1/values", "unyt_array.convert_to_units@1/values", "unyt_array.convert_to_units@1/self",
+   "unyt_array.convert_to_units@1/unyt_array.convert_to_equivalent@2/self"]),
+ ("kwargs", ["unyt_array.convert_to_units@1/unyt_array.convert_to_equivalent@2/kwargs"])]),
+  ("unyt_array.in_units", [("kwargs", ["unyt_array.to_equivalent@2/kwargs"])]),
+  ("unyt_array.to", [("kwargs", ["unyt_array.in_units@1/unyt_array.to_equivalent@2/kwargs"])]),
+  ("unyt_array.to_value", [("kwargs", ["unyt_array.in_units@1/unyt_array.to_equivalent@2/kwargs"])]),
+  ("unyt_array.convert_to_equivalent", [("self",
+  ["unyt_array.convert_to_units@1/values", "unyt_array.convert_to_units@1/self", "unyt_array.convert_to_units@1/values",
+   "unyt_array.convert_to_units@1/values", "unyt_array.convert_to_units@1/values", "unyt_array.convert_to_units@1/self",
+   "unyt_array.convert_to_units@3/values", "unyt_array.convert_to_units@3/self", "unyt_array.convert_to_units@3/values",
+   "unyt_array.convert_to_units@3/values", "unyt_array.convert_to_units@3/values", "unyt_array.convert_to_units@3/self",
+   "self"]),
+ ("kwargs", ["kwargs"])]),
+  ("unyt_array.to_equivalent", [("kwargs", ["kwargs"])]),
+  ("unyt_array.to_astropy", [("kwargs", ["kwargs"])]),
+  ("unyt_array.__array_ufunc__", [("inputs", ["inputs"]), ("kwargs", ["kwargs", "kwargs", "kwargs"])]),
+  ("unyt_array.__array_function__", [("args", ["args"])]),
+  ("unyt_array.__array_finalize__", [("self", ["self", "self"])]),
+  ("unyt_array.dot", [("out", ["out", "out"])]),
+  ("unyt_array.take", [("out", ["out"])]),
+  ("unyt_array.__setstate__", [("self", ["self"])])
+]
+
+def targetsArray : List (String × String) :=
+  reviewedArray.flatMap fun (n, ws) => ws.map fun (p, _) => (n, p)
+
 end Unyt.Ref.C18Alias
